@@ -70,6 +70,10 @@ CHECKS = {
          "Every heap-shape program (root kind x holder chain of length <= 2 over 17 holder kinds x 19 referent kinds, 12k programs) and the C05/C06/C07/C08/C18 corpora run under never (comparison), always (collect at every allocation) and, for the small programs, only{i} for every allocation index (all pairs in the thorough tier): no use-after-free event (dereference of a swept object, open captured variable into a swept fiber stack, object swept while borrowed), output identical to the never-collect run, no crash.",
          "`always` dominates every other schedule under the quarantine (argued in DESIGN.md and validated by the only{i} runs: 0 counterexamples). One open finding (KF-C01-01) attributed only when the first event is the dangling captured variable of an abandoned fiber.",
          "5/C01"),
+ "C02": ("exhaustive sweeps of built-ins x receivers x adversarial argument tuples, operator constructs x value kinds, and a resource grid, on the real VM in its checked configuration",
+         "Every built-in method on a proper receiver and on an instance of a language-level subclass of the built-in class, with every argument tuple of its arity over a 43-value adversarial pool and neighbouring arities; 20 unary and 6 binary constructs over every value / ordered pair; slices over extreme bounds; recursion depth x frame width; nesting ladders to 10^4/10^5; self-containing data, mutation during iteration, fiber misuse. The run must end Ok or with a reported error, never panic/crash/hang, and a failing built-in call inside try/catch must reach the handler with an error-class instance.",
+         "Two open findings (KF-C02-01 natives through derived classes, KF-C02-02 equality of distinct cyclic containers) attributed by receiver kind + panic message / by case identity. Every other corpus of this framework also runs on the checked runner, where a panic is a mismatch.",
+         "5/C02"),
 }
 NOT_YET = "check not built yet in this revision of /verif (work in progress; see DESIGN.md section 10)"
 
